@@ -243,7 +243,7 @@ fn build(g: &Grammar, thorough: bool) -> Vec<C2Case> {
         plain.extend(corpus::opt_pair_docs(g, None));
     }
     for d in &plain {
-        out.push(C2Case { case: Case { label: d.label.clone(), class: "grammar".into(), text: d.doc.text(), spec: None }, keep: vec![], limit: None });
+        out.push(C2Case { case: Case { label: d.label.clone(), class: "grammar".into(), text: d.doc.text(), spec: None, parts: vec![] }, keep: vec![], limit: None });
     }
     // value classes (notation may change, value may not)
     let mut vc = Vec::new();
@@ -276,7 +276,7 @@ fn build(g: &Grammar, thorough: bool) -> Vec<C2Case> {
                     && ((role == "before-sub-element") || (role == "before-end" && block_has_refs(g, &toks, gap)))
                     && !inside_special(&toks, gap);
                 let keep = if block_level { comment_texts(c) } else { vec![] };
-                out.push(C2Case { case: Case { label: format!("{} + cm(gap {gap},{n})", d.label), class: format!("cm:{n}@{role}"), text, spec: None }, keep, limit: None });
+                out.push(C2Case { case: Case { label: format!("{} + cm(gap {gap},{n})", d.label), class: format!("cm:{n}@{role}"), text, spec: None, parts: vec![] }, keep, limit: None });
             }
         }
     }
@@ -296,7 +296,7 @@ fn build(g: &Grammar, thorough: bool) -> Vec<C2Case> {
                 pos -= 7;
             }
         }
-        out.push(C2Case { case: Case { label: "record-layout-reverse-positions".into(), class: "reorder".into(), text: doc.text(), spec: None }, keep: vec![], limit: None });
+        out.push(C2Case { case: Case { label: "record-layout-reverse-positions".into(), class: "reorder".into(), text: doc.text(), spec: None, parts: vec![] }, keep: vec![], limit: None });
         // file level: PROJECT before ASAP2_VERSION is not valid per I (version first), so only the RECORD_LAYOUT case
     }
     // literals at and beyond the limits of every integer parameter
@@ -316,7 +316,7 @@ fn build(g: &Grammar, thorough: bool) -> Vec<C2Case> {
                 let mut doc = d.doc.clone();
                 doc.root.at_mut(&d.path).params[pi].text = lit.clone();
                 out.push(C2Case {
-                    case: Case { label: format!("{} + limit({},{n})", d.label, p.field), class: format!("limit:{:?}:{n}", p.ty).to_lowercase(), text: doc.text(), spec: None },
+                    case: Case { label: format!("{} + limit({},{n})", d.label, p.field), class: format!("limit:{:?}:{n}", p.ty).to_lowercase(), text: doc.text(), spec: None, parts: vec![] },
                     keep: vec![],
                     limit: Some((fits, lit)),
                 });
@@ -366,7 +366,7 @@ fn build(g: &Grammar, thorough: bool) -> Vec<C2Case> {
             sh.sort();
             sh.dedup();
             out.push(C2Case {
-                case: Case { label: format!("ifdata-uninterpreted({lead}{})", payload.join(" ")), class: format!("ifdata-raw:{}", sh.join("+")), text: doc.text(), spec: None },
+                case: Case { label: format!("ifdata-uninterpreted({lead}{})", payload.join(" ")), class: format!("ifdata-raw:{}", sh.join("+")), text: doc.text(), spec: None, parts: vec![] },
                 keep: vec![],
                 limit: None,
             });
@@ -474,7 +474,7 @@ pub fn run(tier: &str) -> Run {
 pub fn replay(v: &Value) -> Result<String, String> {
     let g = corpus::grammar();
     let c = C2Case {
-        case: Case { label: v["label"].as_str().unwrap_or("").into(), class: v["class"].as_str().unwrap_or("").into(), text: v["text"].as_str().ok_or("no text")?.into(), spec: v["spec"].as_str().map(|s| s.to_string()) },
+        case: Case { label: v["label"].as_str().unwrap_or("").into(), class: v["class"].as_str().unwrap_or("").into(), text: v["text"].as_str().ok_or("no text")?.into(), spec: v["spec"].as_str().map(|s| s.to_string()), parts: vec![] },
         keep: v["keep"].as_array().map(|a| a.iter().filter_map(|x| x.as_str().map(|s| s.to_string())).collect()).unwrap_or_default(),
         limit: v["limit"].as_array().map(|a| (a[0].as_bool().unwrap_or(false), a[1].as_str().unwrap_or("").to_string())),
     };
